@@ -11,8 +11,24 @@ Clauses (DESIGN.md §5 C05):
 All theorems are about the `Impl` layer of Model/NNLS.lean (what the driver executes against the
 Python), over an arbitrary ordered field; the external linear solvers enter through `Spec.SolveContract`,
 which is discharged for the driver's instance in `solve_instance_contract`.
+
+Section `chol` (Model/Cholesky.lean): the Cholesky bookkeeping of `fnnls_cholesky` — `_cholupdate`,
+`cholinsertlast`, `choldeleteindexes` of util/cholesky_funcs.py and the substitutions of `cho_solve` — is
+modelled and proved exact over an ordered field with only `sqrt` assumed (`Spec.SqrtContract`, discharged
+for `Real.sqrt`); `Spec.SolveContract` is thereby INSTANTIATED by the code's own passive-set solve
+(`chol_solve_instance_contract`), clause (b) holds for `Impl.fnnls (Impl.cholSolve sqrt)`
+(`chol_fnnls_main_exit_kkt`), and on symmetric positive-definite systems that solve never fails, which closes
+the open disjunct of `b_terminates_exact` (`chol_terminates_exact`).
 -/
 import Model.NNLS
+import Model.Cholesky
+import Proofs.Cholesky
+import Proofs.CholeskySolve
+import Proofs.CholeskyDelete
+import Proofs.CholeskyPD
+import Proofs.CholeskyNNLS
+import Proofs.CholeskyExact
+import Mathlib.Analysis.Real.Sqrt
 import Proofs.NNLS
 import Proofs.NNLSLoop
 import Proofs.NNLSRecon
@@ -484,6 +500,193 @@ theorem e_mapped_data_sum (m : ℕ) (hm : 0 < m) (Bs : List (List (List α))) (s
 
 end e
 
+/-! ### the Cholesky bookkeeping of `fnnls_cholesky` (util/cholesky_funcs.py), with only `sqrt` assumed -/
+
+section chol
+variable {α : Type} [Field α] [LinearOrder α] [IsStrictOrderedRing α]
+
+/-- the contract assumed of the libm square root is met by the real square root -/
+theorem chol_sqrt_contract_real : Spec.SqrtContract Real.sqrt :=
+  fun x hx => ⟨Real.sqrt_nonneg x, Real.mul_self_sqrt hx⟩
+
+/-- (chol-a) `_cholupdate(U, x)` is the rank-one update of the factor: for an upper-triangular n×n `U` with
+    non-zero diagonal and `x` of length `n`, the result `U'` is upper triangular with POSITIVE diagonal and
+    `U'ᵀU' = UᵀU + x xᵀ`.  All sizes. -/
+theorem chol_update_rank_one (sqrt : α → α) (hs : Spec.SqrtContract sqrt) (n : ℕ) (U : List (List α))
+    (x : List α) (hU : Spec.IsUpper n U) (hd : ∀ i, i < n → mget U i i ≠ 0) (hx : x.length = n) :
+    Spec.IsUpper n (Impl.cholupdate sqrt U x) ∧ Spec.PosDiag n (Impl.cholupdate sqrt U x)
+      ∧ ∀ i j, i < n → j < n →
+          Spec.gram (Impl.cholupdate sqrt U x) i j = Spec.gram U i j + vget x i * vget x j :=
+  cholupdate_spec sqrt hs n U x hU hd hx
+
+/-- (chol-b, on arrays) `cholinsertlast(U, x)`: `U` the exact factor of the n×n `M`; `M'` an (n+1)×(n+1) array
+    with leading block `M` whose last row and last column are `x`; Schur complement `x[n] − ‖S12‖² > 0`
+    (`S12` = the forward substitution `solve_triangular(U, x[:n], trans=1)`): the call returns the exact factor
+    of `M'` — upper triangular, positive diagonal, `SᵀS = M'`. -/
+theorem chol_insertlast_exact (sqrt : α → α) (hs : Spec.SqrtContract sqrt) (n : ℕ) (U M M' : List (List α))
+    (x : List α) (hf : Spec.IsCholFactor n U M) (hx : x.length = n + 1)
+    (hlead : ∀ a b, a < n → b < n → mget M' a b = mget M a b)
+    (hrow : ∀ j, j ≤ n → mget M' n j = vget x j) (hcol : ∀ j, j ≤ n → mget M' j n = vget x j)
+    (hschur : 0 < vget x n - dot (Impl.solveUT U (x.take n)) (Impl.solveUT U (x.take n))) :
+    ∃ S, Impl.cholinsertlast sqrt U x = some S ∧ Spec.IsCholFactor (n + 1) S M' :=
+  cholinsertlast_spec sqrt hs n U M M' x hf hx hlead hrow hcol hschur
+
+/-- (chol-b, as `fnnls_cholesky` calls it) `U` the exact factor of `ZTZ[P][:, P]` for the ordered passive list
+    `P`, `i` the entering index, `ZTZ` symmetric: if the Schur complement is positive,
+    `cholinsertlast(U, ZTZ[i][P ++ [i]])` is the exact factor of `ZTZ[P ++ [i]][:, P ++ [i]]` — in the order of
+    `P_inorder ++ [i]`. -/
+theorem chol_insertlast_passive_list (sqrt : α → α) (hs : Spec.SqrtContract sqrt) (n : ℕ)
+    (A : List (List α)) (hsym : Spec.IsSymm n A) (P : List ℕ) (i : ℕ) (U : List (List α))
+    (hf : Spec.IsCholFactor P.length U (subMat A P))
+    (hschur : 0 < vget (gather (A.getD i []) (P ++ [i])) P.length
+      - dot (Impl.solveUT U ((gather (A.getD i []) (P ++ [i])).take P.length))
+            (Impl.solveUT U ((gather (A.getD i []) (P ++ [i])).take P.length))) :
+    ∃ S, Impl.cholinsertlast sqrt U (gather (A.getD i []) (P ++ [i])) = some S
+      ∧ Spec.IsCholFactor (P ++ [i]).length S (subMat A (P ++ [i])) :=
+  cholinsertlast_subMat sqrt hs n A hsym P i U hf hschur
+
+/-- (chol-c) `choldeleteindexes(U, indexes)`: `U` the exact factor of `A[P][:, P]`; `indexes` a duplicate-free
+    list of POSITIONS of `P` in any order (the code sorts them descending): the result is the exact factor of
+    the principal submatrix for the remaining ordered list `np.delete(P, indexes)`.  Covers deleting the last
+    position (no `_cholupdate`), several at once, unsorted lists. -/
+theorem chol_deleteindexes_exact (sqrt : α → α) (hs : Spec.SqrtContract sqrt) (A : List (List α))
+    (P : List ℕ) (U : List (List α)) (hf : Spec.IsCholFactor P.length U (subMat A P))
+    (dels : List ℕ) (hnd : dels.Nodup) (hr : ∀ d, d ∈ dels → d < P.length) :
+    Spec.IsCholFactor (Impl.npDelete P dels).length (Impl.choldeleteindexes sqrt U dels)
+      (subMat A (Impl.npDelete P dels)) :=
+  choldeleteindexes_spec sqrt hs A P U hf dels hnd hr
+
+/-- (chol-c') one pass of its loop: deleting position `d` from the exact factor of the (n+1)×(n+1) `M` gives
+    the exact factor of `M` without row and column `d`. -/
+theorem chol_delete_one_exact (sqrt : α → α) (hs : Spec.SqrtContract sqrt) (n : ℕ) (U M M' : List (List α))
+    (d : ℕ) (hf : Spec.IsCholFactor (n + 1) U M) (hd : d ≤ n)
+    (hM' : ∀ i j, i < n → j < n → mget M' i j = mget M (skip d i) (skip d j)) :
+    Spec.IsCholFactor n (Impl.cholDelete1 sqrt U d) M' :=
+  cholDelete1_spec sqrt hs n U M M' d hf hd hM'
+
+/-- (chol-c'') the list the code keeps next to the factor: `np.delete(P_inorder, np.where(d[P_inorder] <=
+    tolerance)[0])` is the passive list `fcPin` of the active-set model (Model/NNLS.lean). -/
+theorem chol_passive_list_delete (tol : α) (d : List α) (Pin : List ℕ) :
+    Impl.npDelete Pin (Impl.fcIdDelete tol Pin d) = Impl.fcPin tol Pin d :=
+  npDelete_fcIdDelete tol d Pin
+
+/-- (chol-d) `cho_solve((U, False), b)` (forward then back substitution) returns `x` with `UᵀU x = b` for an
+    upper-triangular `U` with non-zero diagonal. -/
+theorem chol_cho_solve_solves (n : ℕ) (U : List (List α)) (b : List α) (hU : Spec.IsUpper n U)
+    (hb : b.length = n) (hd : ∀ i, i < n → mget U i i ≠ 0) :
+    (Impl.choSolve U b).length = n ∧ ∀ i, i < n →
+      ∑ j ∈ Finset.range n, Spec.gram U i j * vget (Impl.choSolve U b) j = vget b i :=
+  choSolve_gram n U b hU hb hd
+
+/-- (chol-d') hence through an exact factor of `M` it returns the solution of `M x = b`. -/
+theorem chol_cho_solve_factor (n : ℕ) (U M : List (List α)) (b : List α) (hf : Spec.IsCholFactor n U M)
+    (hM : Spec.IsSquare n M) (hb : b.length = n) :
+    (Impl.choSolve U b).length = n ∧ matVec M (Impl.choSolve U b) = b :=
+  choSolve_spec n U M b hf hM hb
+
+/-- (chol-e, solver completeness of one insertion) on a symmetric positive-definite `ZTZ` every Schur
+    complement met by `cholinsertlast` is positive: for a duplicate-free in-range `P ++ [i]` and the exact
+    factor `U` of `ZTZ[P][:, P]` the call succeeds and returns the exact factor of
+    `ZTZ[P ++ [i]][:, P ++ [i]]`.  The factorisation never fails in exact arithmetic. -/
+theorem chol_insertlast_never_fails_pd (sqrt : α → α) (hs : Spec.SqrtContract sqrt) (n : ℕ)
+    (A : List (List α)) (hsym : Spec.IsSymm n A) (hpd : Spec.IsPD n A) (P : List ℕ) (i : ℕ)
+    (hnd : (P ++ [i]).Nodup) (hr : ∀ j, j ∈ P ++ [i] → j < n) (U : List (List α))
+    (hf : Spec.IsCholFactor P.length U (subMat A P)) :
+    0 < vget (gather (A.getD i []) (P ++ [i])) P.length
+        - dot (Impl.solveUT U ((gather (A.getD i []) (P ++ [i])).take P.length))
+              (Impl.solveUT U ((gather (A.getD i []) (P ++ [i])).take P.length))
+    ∧ ∃ S, Impl.cholinsertlast sqrt U (gather (A.getD i []) (P ++ [i])) = some S
+        ∧ Spec.IsCholFactor (P ++ [i]).length S (subMat A (P ++ [i])) :=
+  ⟨schur_pos_of_pd n A hsym hpd P i hnd hr U hf, cholinsertlast_pd sqrt hs n A hsym hpd P i hnd hr U hf⟩
+
+/-- (chol-e') the whole passive-set solve (`Impl.cholSolve`: the factor built by successive insertions +
+    `cho_solve`) never fails on a principal subsystem of a symmetric positive-definite matrix. -/
+theorem chol_solver_complete_pd (sqrt : α → α) (hs : Spec.SqrtContract sqrt) (n : ℕ) (A : List (List α))
+    (hsym : Spec.IsSymm n A) (hpd : Spec.IsPD n A) (P : List ℕ) (hnd : P.Nodup) (hr : ∀ i, i ∈ P → i < n)
+    (r : List α) : ∃ x, Impl.cholSolve sqrt (subMat A P) r = some x :=
+  cholSolve_pd sqrt hs n A hsym hpd P hnd hr r
+
+/-- (chol-f, the contract on symmetric systems) whenever the Cholesky path returns, it returns the solution:
+    for symmetric n×n `M`, `Impl.cholSolve sqrt M r = some x` ⇒ `M x = r`. -/
+theorem chol_solve_sound (sqrt : α → α) (hs : Spec.SqrtContract sqrt) (n : ℕ) (M : List (List α))
+    (hsym : Spec.IsSymm n M) (r : List α) (hr : r.length = n) (x : List α)
+    (h : Impl.cholSolve sqrt M r = some x) : x.length = n ∧ matVec M x = r :=
+  cholSolve_sound sqrt hs n M hsym r hr x h
+
+/-- (chol-f, the instance) the contract `Spec.SolveContract` assumed by clauses (b)–(d) — cf.
+    `solve_instance_contract` for the driver's Gauss–Jordan instance — is met by the Cholesky path itself
+    (behind the guard "the system is symmetric", which `fnnls` never trips on a symmetric input:
+    `chol_fnnls_guard_invisible`), with nothing assumed but `sqrt`. -/
+theorem chol_solve_instance_contract (sqrt : α → α) (hs : Spec.SqrtContract sqrt) :
+    Spec.SolveContract (cholSolveG sqrt) :=
+  cholSolveG_contract sqrt hs
+
+theorem chol_fnnls_guard_invisible (sqrt : α → α) (n : ℕ) (A : List (List α)) (hsym : Spec.IsSymm n A)
+    (b : List α) (tol : α) (maxIter : ℕ) (pInit : Option (List ℕ)) :
+    Impl.fnnls (cholSolveG sqrt) A b tol maxIter pInit = Impl.fnnls (Impl.cholSolve sqrt) A b tol maxIter pInit :=
+  fnnls_cholSolveG_eq sqrt n A hsym b tol maxIter pInit
+
+/-- (chol-f ∘ b) clause (b) for the Cholesky path: `fnnls_cholesky` with its OWN passive-set solves (carried
+    factor + `cho_solve`, `Impl.cholSolve sqrt`), symmetric `ZTZ`, cold or any duplicate-free in-range warm
+    start: a vector returned through the main exit has length `n` and satisfies the KKT conditions with slack
+    `tol`, and for PSD `ZTZ` is optimal among all `x ≥ 0` up to `tol·Σx`.  Only `sqrt` is assumed. -/
+theorem chol_fnnls_main_exit_kkt (sqrt : α → α) (hs : Spec.SqrtContract sqrt) (n : ℕ) (A : List (List α))
+    (b : List α) (hsym : Spec.IsSymm n A) (hb : b.length = n) (tol : α) (htol : 0 ≤ tol) (maxIter : ℕ)
+    (pInit : Option (List ℕ)) (hp : ∀ idx, pInit = some idx → idx.Nodup ∧ ∀ i, i ∈ idx → i < n)
+    (d : List α) (lc lc2 : ℕ)
+    (h : Impl.fnnls (Impl.cholSolve sqrt) A b tol maxIter pInit = .ok d .main lc lc2) :
+    d.length = n ∧ Spec.IsKKT A b d tol
+      ∧ (Spec.IsPSD n A → ∀ x : List α, x.length = n → Spec.Nonneg x →
+          Spec.qform A b d ≤ Spec.qform A b x + tol * ∑ i ∈ Finset.range n, vget x i) := by
+  rw [← chol_fnnls_guard_invisible sqrt n A hsym b tol maxIter pInit] at h
+  have hc := chol_solve_instance_contract sqrt hs
+  obtain ⟨hd, hk⟩ := b_fnnls_main_exit_kkt (cholSolveG sqrt) hc n A b hsym.1 hsym.2.1 hb tol htol maxIter
+    pInit hp d lc lc2 h
+  exact ⟨hd, hk, fun hpsd x hx hxn => a_kkt_tol_near_optimal n A b d x tol htol hsym hpsd hb hd hx hk hxn⟩
+
+/-- (chol-f ∘ b, total correctness in exact arithmetic — solver completeness closed) symmetric
+    positive-definite `ZTZ`, tolerance 0, `2^n + n ≤ maxIter`, cold or any valid warm start: `fnnls_cholesky`
+    with its own passive-set solves returns through the MAIN exit the exact KKT point, the global minimiser of
+    `½ xᵀAx − bᵀx` over `x ≥ 0`.  Unlike `b_terminates_exact` there is no "or a linear solve failed"
+    alternative: by (chol-e) the Cholesky path never fails on the passive lists the solver visits. -/
+theorem chol_terminates_exact (sqrt : α → α) (hs : Spec.SqrtContract sqrt) (n : ℕ) (A : List (List α))
+    (b : List α) (hsym : Spec.IsSymm n A) (hpd : Spec.IsPD n A) (hb : b.length = n)
+    (maxIter : ℕ) (hmax : 2 ^ n + n ≤ maxIter) (pInit : Option (List ℕ))
+    (hp : ∀ idx, pInit = some idx → idx.Nodup ∧ ∀ i, i ∈ idx → i < n) :
+    ∃ d lc lc2, Impl.fnnls (Impl.cholSolve sqrt) A b 0 maxIter pInit = .ok d .main lc lc2
+      ∧ d.length = n ∧ Spec.IsKKT A b d 0
+      ∧ ∀ x : List α, x.length = n → Spec.Nonneg x → Spec.qform A b d ≤ Spec.qform A b x := by
+  obtain ⟨d, lc, lc2, h⟩ := fnnls_cholesky_exact n A b hsym hpd hb sqrt hs maxIter hmax pInit hp
+  obtain ⟨hd, hk, _⟩ := chol_fnnls_main_exit_kkt sqrt hs n A b hsym hb 0 le_rfl maxIter pInit hp d lc lc2 h
+  exact ⟨d, lc, lc2, h, hd, hk, fun x hx hxn =>
+    a_kkt_is_global_minimum n A b d x hsym (isPSD_of_isPD n A hsym.1 hpd) hb hd hx hk hxn⟩
+
+/-- (chol-f, the carried factor) every factor `fnnls_cholesky` can be carrying — reached from the empty factor
+    by `cholinsertlast(U, ZTZ[i][P_inorder])` calls (with a positive new pivot) and
+    `choldeleteindexes(U, id_delete)` calls, `P_inorder` updated alongside (`CholReach`) — is the exact factor
+    of `ZTZ[P_inorder][:, P_inorder]` (symmetric `ZTZ`), so `cho_solve` through it meets the contract of the
+    passive-set solve: `ZTZ[P][:, P] x = ZTx[P]`. -/
+theorem chol_carried_factor_exact (sqrt : α → α) (hs : Spec.SqrtContract sqrt) (n : ℕ) (A : List (List α))
+    (hsym : Spec.IsSymm n A) (b : List α) (P : List ℕ) (U : List (List α)) (h : CholReach sqrt A P U) :
+    Spec.IsCholFactor P.length U (subMat A P)
+      ∧ (Impl.choSolve U (gather b P)).length = P.length
+      ∧ matVec (subMat A P) (Impl.choSolve U (gather b P)) = gather b P := by
+  have hf := CholReach.factor sqrt hs n A hsym P U h
+  have := choSolve_spec P.length U (subMat A P) (gather b P) hf
+    ⟨subMat_length A P, subMat_row_length A P⟩ (gather_length b P)
+  exact ⟨hf, this.1, this.2⟩
+
+/-- (chol-f, carried = rebuilt) on a symmetric positive-definite `ZTZ`, for a duplicate-free in-range passive
+    list the solve through ANY carried factor is the very value `Impl.fnnls (Impl.cholSolve sqrt)` computes at
+    that point (`solveOn`), although the model rebuilds the factor by successive insertions. -/
+theorem chol_carried_factor_solve (sqrt : α → α) (hs : Spec.SqrtContract sqrt) (n : ℕ) (A : List (List α))
+    (hsym : Spec.IsSymm n A) (hpd : Spec.IsPD n A) (b : List α) (P : List ℕ) (U : List (List α))
+    (hnd : P.Nodup) (hr : ∀ i, i ∈ P → i < n) (h : CholReach sqrt A P U) :
+    Impl.solveOn (Impl.cholSolve sqrt) A b P = some (Impl.choSolve U (gather b P)) :=
+  CholReach.solve_eq sqrt hs n A hsym hpd b P U hnd hr h
+
+end chol
+
 /-! ### the defect D4, formally: the warm-start prologue as it was before the repair -/
 
 /-- the witness system of harness/corpus/C05/d4_warm_start.json -/
@@ -608,5 +811,50 @@ example : Spec.IsKKT A3 b3 [0, 0, 1 / 3] 0 := by
   intro i hi
   have hi' : i < 3 := hi
   interval_cases i <;> simp [vget, A3, b3, matVec, dot] <;> norm_num
+
+/-! ### non-vacuity of the Cholesky section -/
+
+/-- an exact square root on the rationals that are squares (0 elsewhere) — for evaluating the model on
+    systems built as `RᵀR` from a rational `R`, as the correspondence run does -/
+def qsqrt (x : ℚ) : ℚ :=
+  let r (n : ℕ) : ℕ := ((List.range (n + 1)).find? fun k => k * k == n).getD 0
+  mkRat (r x.num.toNat) (r x.den)
+
+/-- `R4ᵀ R4` for the rational upper-triangular `R4` -/
+def R4 : List (List ℚ) := [[2, 1, 3, 1], [0, 1, 2, 5], [0, 0, 3, 1], [0, 0, 0, 2]]
+def A4 : List (List ℚ) := [[4, 2, 6, 2], [2, 2, 5, 6], [6, 5, 22, 16], [2, 6, 16, 31]]
+
+/-- successive `cholinsertlast` calls rebuild `R4` from `A4 = R4ᵀR4`; `cho_solve` through it solves `A4 x = b` -/
+example : Impl.cholFactor qsqrt A4 = some R4 := by decide +kernel
+
+example : (Impl.cholSolve qsqrt A4 [1, 2, 3, 4]).map (matVec A4) = some [1, 2, 3, 4] := by decide +kernel
+
+/-- `choldeleteindexes` on the factor `[[1,4,0],[0,3,0],[0,0,2]]` of `[[1,4,0],[4,25,0],[0,0,4]]`: deleting
+    position 0 (one `_cholupdate` with `sqrt(9 + 16)`), the last position (no update), both (unsorted) -/
+example : Impl.choldeleteindexes qsqrt [[1, 4, 0], [0, 3, 0], [0, 0, 2]] [0] = [[5, 0], [0, 2]] := by
+  decide +kernel
+
+example : Impl.choldeleteindexes qsqrt [[1, 4, 0], [0, 3, 0], [0, 0, 2]] [2] = [[1, 4], [0, 3]] := by
+  decide +kernel
+
+example : Impl.choldeleteindexes qsqrt [[1, 4, 0], [0, 3, 0], [0, 0, 2]] [0, 2] = [[5]] := by decide +kernel
+
+example : Impl.npDelete [7, 8, 9] [0, 2] = [8] ∧ Impl.fcIdDelete (0 : ℚ) [2, 0, 1] [1, -1, 0] = [0, 2] := by
+  decide +kernel
+
+/-- the hypotheses of (chol-a)…(chol-d) are met: `[[1,4],[0,3]]` is the exact factor of `[[1,4],[4,25]]` -/
+example : Spec.IsCholFactor 2 [[1, 4], [0, 3]] ([[1, 4], [4, 25]] : List (List ℚ)) := by
+  refine ⟨⟨⟨rfl, ?_⟩, ?_⟩, ?_, ?_⟩
+  · intro r hr; simp at hr; rcases hr with rfl | rfl <;> rfl
+  · intro i j hji hi; interval_cases i <;> interval_cases j <;> first | omega | simp [mget]
+  · intro i hi; interval_cases i <;> simp [mget]
+  · intro i j hi hj
+    interval_cases i <;> interval_cases j <;> simp [Spec.gram, Spec.col, dot, vget, mget] <;> norm_num
+
+/-- an fnnls run through the Cholesky path (`A = RᵀR`, `R = [[2,1],[0,1]]`, `b = A·(1,1)`: index 0 enters
+    first, then index 1, so every square root met is rational): main exit at the exact optimum `(1, 1)` -/
+example : (match Impl.fnnls (Impl.cholSolve qsqrt) [[4, 2], [2, 2]] [6, 4] 0 10000 none with
+    | .ok d .main _ _ => d == [1, 1] && Spec.isKKTb [[4, 2], [2, 2]] [6, 4] d 0
+    | _ => false) = true := by decide +kernel
 
 end C05
